@@ -29,6 +29,7 @@ struct HookState {
   long unusual_fired = 0;
   long fatal_errors = 0;
   bool td_check_delayed_now = false; // neutraliser of KF52 (site td_check_delayed_now)
+  long refused_queries = 0; // queries on a value that crab refused inside in_gamma (process total)
 };
 HookState &hooks();
 
